@@ -312,6 +312,7 @@ def run(ctx):
             check_security(ctx, meta, h["children"][0], wc[1])
     declared_elsewhere(ctx)
     unconfigured(ctx)
+    header_elements_stay_where_they_are(ctx)
     zoned_timestamps(ctx)
     header_parts_declared_by_type(ctx)
     ctx.sample(metas[3] if len(metas) > 3 else metas[0])
@@ -356,6 +357,29 @@ def unconfigured(ctx):
                 got = repr(e)
             if got != []:
                 ctx.fail("a client without configured soapheaders sends header entries", meta, got, [])
+
+
+def header_elements_stay_where_they_are(ctx):
+    """A ready-made header Element that hangs in a document of the caller's is copied into each request: it stays
+    attached to its parent, at its place, with its content - request after request."""
+    from suds.sax.element import Element
+    w = make_wsdl(1, None)
+    doc = Element("config")
+    before, h, after = Element("before"), mk_element(1), Element("after")
+    for n in (before, h, after):
+        doc.append(n)
+    meta = {"stream": "attached-header-element"}
+    ctx.case(common.canon(meta), True)
+    try:
+        c = wsdlkit.client(w, nosend=True, soapheaders=("v", h))
+        sent = [header_names(wsdlkit.envelope_bytes(c.service.f("x"))) for _ in range(2)]
+        got = [[len(s_) for s_ in sent], h.parent is doc, [k.name for k in doc.children], len(h.children)]
+    except Exception as e:
+        got = repr(e)
+    want = [[2, 2], True, ["before", "Custom1", "after"], 2]
+    if got != want:
+        ctx.fail("sending a ready-made header Element changed the caller's own document (or the entry was not sent)",
+                 meta, got, want)
 
 
 def declared_elsewhere(ctx):
